@@ -631,6 +631,20 @@ V_Generate(e) ==
      ELSE IF "jsonfile" \in DOMAIN e /\ JsonDeserialize(e.jsonfile) # e.tree THEN "generate-json-does-not-parse-back"
      ELSE "ok"
 
+\* a long interval in one call: e.inp = [net, account, start, end (5-byte lists, below 2^31)]; e.res.v[b] = seq of row paths.
+\* Exactly one row per index, in order (the rows' contents are judged by Generate on short intervals).
+V_GenerateOrder(e) ==
+  LET st == ToNat(e.inp.start)  en == ToNat(e.inp.end)
+      n == IF en > st THEN en - st ELSE 0
+      bad(b) == LET apath == <<HSmall(PurposeNum(b)), HSmall(CoinOf(e.inp.net)), HSmall(e.inp.account)>>
+                    rows == e.res.v[b]
+                IN Len(rows) # n \/ \E j \in 1..n : rows[j] # Format(TRUE, apath \o <<Zeros(4), FromNat(st + j - 1, 4)>>)
+  IN IF Raised(e) THEN "generate-raised"
+     ELSE IF bad("bip44") THEN "generate-bip44-rows-not-one-per-index-in-order"
+     ELSE IF bad("bip49") THEN "generate-bip49-rows-not-one-per-index-in-order"
+     ELSE IF bad("bip84") THEN "generate-bip84-rows-not-one-per-index-in-order"
+     ELSE "ok"
+
 \* e.inp = [master, net]; e.res.v = [xpub, fp]
 V_Wasabi(e) ==
   LET m == MasterFromInp(e)
@@ -658,7 +672,10 @@ V_Paranoia(e) ==
                    \* substring test for secrets long enough not to occur in public text by coincidence
                    \/ \E x \in nonEmptySecrets : Len(x) >= 8 /\ IsSubSeqOf(x, s)}
       pubFull == {<<e.full[j].ptr, e.full[j].s>> : j \in {x \in 1..Len(e.full) : e.full[x].role \in {"path", "addr", "sec", "pub"}}}
-      pubFilt == {<<e.filt[j].ptr, e.filt[j].s>> : j \in 1..Len(e.filt)}
+      \* (the pseudo-leaf "/stderr" - what a command-line run wrote to standard error - is searched for secrets like any
+      \* other string, but a harmless message there is not "extra data" of the document)
+      StderrPtr == <<47, 115, 116, 100, 101, 114, 114>>
+      pubFilt == {<<e.filt[j].ptr, e.filt[j].s>> : j \in {x \in 1..Len(e.filt) : e.filt[x].ptr # StderrPtr}}
   IN IF Raised(e) THEN "paranoia-raised"
      ELSE IF bad # {} THEN
           LET j == CHOOSE x \in bad : \A y \in bad : x <= y
@@ -736,6 +753,7 @@ Verdict(e) ==
     [] e.act = "Emit" -> V_Emit(e)
     [] e.act = "Watch" -> V_Watch(e)
     [] e.act = "Generate" -> V_Generate(e)
+    [] e.act = "GenerateOrder" -> V_GenerateOrder(e)
     [] e.act = "Wasabi" -> V_Wasabi(e)
     [] e.act = "Paranoia" -> V_Paranoia(e)
     [] e.act = "Bip85Data" -> V_Bip85Data(e)
